@@ -75,7 +75,7 @@ impl Monitor for C02 {
     }
     fn generate(&self, r: &mut Rng, _tier: Tier, _i: u64) -> C02Case {
         let (name, cfg) = pick_family(r, FAMILIES);
-        let (name, (u, p)) = if r.chance(1, 30) { ("conflict-chain", gener::conflict_chain(r)) } else { (name, gener::generate(r, &cfg)) };
+        let (name, (u, p)) = if r.chance(1, 30) { ("conflict-chain", gener::conflict_chain(r)) } else if r.chance(1, 60) { ("union-abandon", gener::union_abandon(r)) } else { (name, gener::generate(r, &cfg)) };
         let p = p.hard();
         let brute = name != "big" && name != "many-excl";
         let mut variants = vec![];
